@@ -31,6 +31,9 @@ type Case struct {
 	Alpha        *Node    `json:"alpha"`
 	Beta         *Node    `json:"beta,omitempty"`
 	AncestorDirs []string `json:"ancestor_dirs,omitempty"`
+	// AncestorFiles are paths at which the ancestor has a file (its parents
+	// are directories of the ancestor).
+	AncestorFiles []string `json:"ancestor_files,omitempty"`
 }
 
 func materialize(dir string, n *Node) error {
@@ -94,33 +97,49 @@ func scanRoot(root string, patterns []string) (*core.Entry, error) {
 
 // ancestorEntry builds the ancestor: directories at the given paths (parents
 // included), nothing else.
-func ancestorEntry(dirs []string) (*core.Entry, map[string]bool) {
+func ancestorEntry(dirs, files []string) (*core.Entry, map[string]bool) {
 	set := map[string]bool{}
-	if len(dirs) == 0 {
+	if len(dirs)+len(files) == 0 {
 		return nil, set
 	}
 	root := &core.Entry{Kind: core.EntryKind_Directory}
 	set[""] = true
-	for _, d := range dirs {
+	add := func(d string, leafIsFile bool) {
 		cur := root
 		p := ""
-		for _, c := range strings.Split(d, "/") {
+		comps := strings.Split(d, "/")
+		for i, c := range comps {
 			if p == "" {
 				p = c
 			} else {
 				p += "/" + c
 			}
-			set[p] = true
+			if cur.Kind != core.EntryKind_Directory {
+				return // a file recorded earlier stands in the way
+			}
 			if cur.Contents == nil {
 				cur.Contents = map[string]*core.Entry{}
 			}
 			next := cur.Contents[c]
 			if next == nil {
-				next = &core.Entry{Kind: core.EntryKind_Directory}
+				if leafIsFile && i == len(comps)-1 {
+					next = &core.Entry{Kind: core.EntryKind_File, Digest: []byte{1, 2, 3, 4, 5, 6, 7, 8, 9, 10, 11, 12, 13, 14, 15, 16, 17, 18, 19, 20}}
+				} else {
+					next = &core.Entry{Kind: core.EntryKind_Directory}
+				}
 				cur.Contents[c] = next
+			}
+			if next.Kind == core.EntryKind_Directory {
+				set[p] = true
 			}
 			cur = next
 		}
+	}
+	for _, d := range dirs {
+		add(d, false)
+	}
+	for _, f := range files {
+		add(f, true)
 	}
 	return root, set
 }
@@ -226,7 +245,7 @@ func judgeIn(base string, c *Case, alphaRoot *string) (violation string, st Stat
 			return err.Error(), st
 		}
 	}
-	ancestor, ancSet := ancestorEntry(c.AncestorDirs)
+	ancestor, ancSet := ancestorEntry(c.AncestorDirs, c.AncestorFiles)
 	// The controller's pipeline for Docker-style syntax.
 	ra, rb, _, _ := core.ReifyPhantomDirectories(ancestor, alpha, beta)
 	wantA, wantB := Synchronized(ca, cb, ancSet)
@@ -235,7 +254,7 @@ func judgeIn(base string, c *Case, alphaRoot *string) (violation string, st Stat
 		return fmt.Sprintf("patterns %q: alpha: %s", c.Patterns, odd), st
 	}
 	if d := diff(gotA, wantA); d != "" {
-		return fmt.Sprintf("patterns %q, ancestor dirs %q: alpha: %s", c.Patterns, c.AncestorDirs, d), st
+		return fmt.Sprintf("patterns %q, ancestor dirs %q files %q: alpha: %s", c.Patterns, c.AncestorDirs, c.AncestorFiles, d), st
 	}
 	if c.Beta != nil {
 		gotB, odd := synchronizedOf(rb)
@@ -243,7 +262,7 @@ func judgeIn(base string, c *Case, alphaRoot *string) (violation string, st Stat
 			return fmt.Sprintf("patterns %q: beta: %s", c.Patterns, odd), st
 		}
 		if d := diff(gotB, wantB); d != "" {
-			return fmt.Sprintf("patterns %q, ancestor dirs %q: beta: %s", c.Patterns, c.AncestorDirs, d), st
+			return fmt.Sprintf("patterns %q, ancestor dirs %q files %q: beta: %s", c.Patterns, c.AncestorDirs, c.AncestorFiles, d), st
 		}
 	}
 	return "", st
@@ -599,7 +618,11 @@ func TestRandom(t *testing.T) {
 			case 1:
 				remove(c.Alpha, comps)
 				k := rapid.IntRange(1, len(comps)-1).Draw(rt, "aim.anc")
-				c.AncestorDirs = append(c.AncestorDirs, strings.Join(comps[:k], "/"))
+				if rapid.IntRange(0, 2).Draw(rt, "aim.ancfile") == 0 {
+					c.AncestorFiles = append(c.AncestorFiles, strings.Join(comps[:k], "/"))
+				} else {
+					c.AncestorDirs = append(c.AncestorDirs, strings.Join(comps[:k], "/"))
+				}
 			}
 		}
 		if excluded(rec, known, c) {
@@ -616,6 +639,9 @@ func TestRandom(t *testing.T) {
 		if len(c.AncestorDirs) > 0 {
 			rec.Class("with-ancestor-directories")
 		}
+		if len(c.AncestorFiles) > 0 {
+			rec.Class("with-ancestor-file-where-alpha-has-directory")
+		}
 		if st.Excluded > 0 {
 			rec.Class("something-excluded")
 		}
@@ -627,7 +653,7 @@ func TestRandom(t *testing.T) {
 			// the peer's content or on the ancestor?
 			ref, _ := NewReference(c.Patterns)
 			ca := ref.Classify(c.Alpha)
-			_, ancSet := ancestorEntry(c.AncestorDirs)
+			_, ancSet := ancestorEntry(c.AncestorDirs, c.AncestorFiles)
 			full, _ := Synchronized(ca, classifyOrNil(ref, c.Beta), ancSet)
 			noPeer, _ := Synchronized(ca, nil, ancSet)
 			noAnc, _ := Synchronized(ca, classifyOrNil(ref, c.Beta), map[string]bool{})
@@ -641,7 +667,7 @@ func TestRandom(t *testing.T) {
 			if st.IncludedBelowExcl == 0 {
 				rec.Class("entered-excluded-directory-without-included-content")
 			}
-			rec.NonTrivial(ev.Hash(fmt.Sprintf("%q", c.Patterns), render(c.Alpha), render(c.Beta), fmt.Sprint(c.AncestorDirs)))
+			rec.NonTrivial(ev.Hash(fmt.Sprintf("%q", c.Patterns), render(c.Alpha), render(c.Beta), fmt.Sprint(c.AncestorDirs, c.AncestorFiles)))
 			if rec.WantSample() && st.IncludedBelowExcl > 0 {
 				rec.Sample(map[string]any{"patterns": c.Patterns, "alpha": render(c.Alpha), "ancestor_dirs": c.AncestorDirs})
 			}
